@@ -141,10 +141,41 @@ def run(chk):
     #      process): instances with different limits die and are followed by new ones (the allocator hands their
     #      addresses out again), and the same instances are used with contention from successive event loops
     order = ["n1", "g3", "n1", "n2", "g3", "n2", "n1"] * chk.pick(2, 10)
-    gens = drv.generations([(n,) + CONFIGS[n] for n in order])
-    gens += drv.generations([("n1",) + CONFIGS["n1"]] * 3 + [("n2",) + CONFIGS["n2"]] * 3, reuse_instances=False)
+    gens, histories = [], []
+
+    def generations(plan, **kw):
+        gens.extend(drv.generations(plan, **kw))
+        histories.append(drv.generations.last_history)
+
+    generations([(n,) + CONFIGS[n] for n in order])
+    generations([("n1",) + CONFIGS["n1"]] * 3 + [("n2",) + CONFIGS["n2"]] * 3)
     for cfgname in ("n1", "n2", "g3"):
-        gens += drv.generations([(cfgname,) + CONFIGS[cfgname]] * 3, reuse_instances=True)
+        generations([(cfgname,) + CONFIGS[cfgname]] * 3, reuse_instances=True)
+    # the histories against RunLimitGen.tla (the semaphore table across lifetimes), and its design-level check
+    for cfg, expect in (("design" if chk.quick else "design_thorough", None), ("strongdict", "Inv_EntryIsOwn"),
+                        ("strongdict_limit", "Inv_OwnLimit")):
+        r_ = tlc.run(SPECS / "sync/MC_RunLimitGen.tla", SPECS / ("sync/MC_RunLimitGen_%s.cfg" % cfg),
+                     workdir=chk.work / ("tlc_gen_" + cfg), deadlock=False, workers=4)
+        chk.record_tlc("RunLimitGen/" + cfg, r_, count=expect is None)
+        if expect:
+            if r_.violated != expect:
+                raise Machinery("sanity run RunLimitGen/%s: expected a violation of %s, got %s" % (cfg, expect, r_.violated or r_.error))
+        elif r_.violated:
+            chk.violation("model:gen:" + r_.violated, "the RunLimitGen design model violates %s" % r_.violated,
+                          {"cfg": cfg, "trace": r_.trace})
+        else:
+            chk.require_tlc_ok("RunLimitGen/" + cfg, r_)
+    hb = {"insts": ["w1", "w2"], "naddr": max(h["naddr"] for h in histories), "traces": [h["lines"] for h in histories]}
+    reached_h, res_h = tracecheck.conform(chk, "sync/TraceRunLimitGen.tla", "sync/TraceRunLimitGen.cfg", hb, name="trace_gen")
+    ok_h = sum(1 for i, h in enumerate(histories, 1) if reached_h.get(i, 0) == len(h["lines"]))
+    if res_h.violated:
+        chk.note("conformance: RunLimitGen invariant %s fails on a recorded history" % res_h.violated)
+    for i, h in enumerate(histories, 1):
+        k = reached_h.get(i, 0)
+        if k != len(h["lines"]) and not res_h.violated:
+            chk.note("conformance drift (RunLimitGen): history %d matched %d/%d lines; first unmatched %s" % (
+                i, k, len(h["lines"]), h["lines"][k]))
+    chk.add(lifetime_histories_validated=ok_h, lifetime_history_lines=sum(len(h["lines"]) for h in histories))
     ngen = nreuse = 0
     for (name, tr, reused) in gens:
         if name not in batches:
